@@ -74,7 +74,7 @@ def concat(a, b):
         if segs and segs[-1].kind == "C" and s.kind == "C":
             segs[-1] = Seg("C", tuple(segs[-1].a) + tuple(s.a))
         elif segs and segs[-1].kind == "A" and s.kind == "A" and _is_slice(segs[-1].a) and _is_slice(s.a) \
-                and segs[-1].a.arg(0).eq(s.a.arg(0)) and simp(segs[-1].a.arg(2)).eq(simp(s.a.arg(1))):
+                and segs[-1].a.arg(0).eq(s.a.arg(0)) and _same_term(segs[-1].a.arg(2), s.a.arg(1)):
             # x[a:b] + x[b:c] = x[a:c]
             x, y = segs[-1], s
             ln = simp(zint(x.length()) + zint(y.length())) if not (is_conc(x.length()) and is_conc(y.length())) \
@@ -142,6 +142,13 @@ def subseg(st, seg, s, e):
     return slice_seg(seg_term(st, seg), zint(s), zint(e), simp(zint(e) - zint(s)))
 
 
+def _same_term(x, y):
+    x, y = simp(x), simp(y)
+    if is_conc(x) or is_conc(y):
+        return is_conc(x) and is_conc(y) and x == y
+    return x.eq(y)
+
+
 def _is_slice(t):
     return z3.is_app(t) and t.decl().name() == "sslice" and t.num_args() == 3
 
@@ -149,7 +156,7 @@ def _is_slice(t):
 def slice_seg(base, lo, hi, length):
     lo, hi = simp(lo), simp(hi)
     whole = smt.slen(base)
-    if is_conc(lo) and lo == 0 and not is_conc(hi) and simp(hi).eq(simp(whole)):
+    if is_conc(lo) and lo == 0 and not is_conc(hi) and _same_term(hi, whole):
         return Seg("A", base, length)
     return Seg("A", smt.sslice(base, zint(lo), zint(hi)), length)
 
